@@ -652,8 +652,8 @@ func ruleResultsAppendedInOrder(c *Ctx, rule string) {
 			}
 		}
 	}
-	if n < 4 {
-		c.undecided(rule, "floor:result-appends", token.NoPos, fmt.Sprintf("expected at least 4 appends to the result list in ProcessBulk, found %d", n))
+	if n < 1 {
+		c.undecided(rule, "floor:result-appends", token.NoPos, fmt.Sprintf("expected at least 1 append to the result list in ProcessBulk, found %d", n))
 	}
 }
 
